@@ -8,8 +8,16 @@ Static clause claimed (the one law-breaking mechanism that is structural):
             guard the single entry it inserts with a zero test
   I-PRIVATE the map cannot be built or mutated from outside the module (field private, Deref without DerefMut): checked from
             the ADT/impl facts; compile-fail witnesses in /verif/witness (thorough tier)
-Not decided (value-level, not applicable to this family): the group laws themselves, `contains_total` being exactly the
-component-wise >= order, round trip through Vec<AssetExpr>.
+  I-CLASS   from_asset sends each (policy present?, name present?) combination to the constructor of its own asset class
+  C-ORDER   contains_total / is_empty_or_negative touch amounts only through comparisons, so their verdict for one entry
+            depends only on presence and on the order type of (amount, other amount, 0): the decision procedure is extracted
+            from MIR and tabulated over all order types (rules/ordering.py), then compared with the property's statement
+            (component-wise >= on non-negative amounts, zero entries immaterial)
+  I-POINTWISE  + and - merge the right operand's entries with that very operator and operand order, unary - negates every
+            amount (in-place merge loop, shared helper taking the operator as a closure, or a - b = a + (-b))
+A shape outside the recognised ones is listed as "not decided", never reported.
+Not decided: associativity / commutativity as identities over arbitrary maps (entry-wise + on i128, modulo the overflow that is
+C02's finding), the round trip through Vec<AssetExpr>.
 """
 from .. import mir
 from ..common import is_derive, site_in_derive
@@ -25,7 +33,7 @@ META = {
         "build or mutate the map. This covers every value any caller can obtain; the algebraic laws as such are value-level and "
         "are not decided."),
     "trusted_base": ["rustc MIR, driver", "HashMap::retain / entry semantics"],
-    "not_decided": ["commutativity, associativity, inverse laws over i128 (overflow aside)", "contains_total / contains_some truth tables", "Vec<AssetExpr> round trip"],
+    "not_decided": ["the group laws as algebraic identities over arbitrary maps (they reduce to entry-wise i128 arithmetic, whose overflow is C02)", "round trip through Vec<AssetExpr>", "predicates / operators written in a shape other than the recognised ones (reported as assumptions)"],
 }
 
 CA = "tx3_tir::model::assets::CanonicalAssets"
